@@ -136,8 +136,8 @@ EXPECT = {
     ],
     'Find': [
         'find f:filter',
-        'find f:filter "sort" <f:sort|fn:Tag::as_str>',
-        'find f:filter "sort" <f:sort|fn:Tag::as_str> "window" f:window.Some.0',
+        'find f:filter "sort" <f:sort.Some.0|fn:Tag::as_str>',
+        'find f:filter "sort" <f:sort.Some.0|fn:Tag::as_str> "window" f:window.Some.0',
         'find f:filter "window" f:window.Some.0',
     ],
     'List<N>': [
@@ -151,7 +151,7 @@ EXPECT = {
     ],
     'CountGrouped': [
         'count "group" f:group_by',
-        'count f:filter "group" f:group_by',
+        'count f:filter.Some.0 "group" f:group_by',
     ],
     "RenamePlaylist<'_>": [
         'rename f:from f:to',
@@ -188,9 +188,9 @@ EXPECT = {
         'tagtypes "all"',
         'tagtypes "clear"',
         'tagtypes "disable"',
-        'tagtypes "disable" f:0*',
+        'tagtypes "disable" f:0.Disable.0*',
         'tagtypes "enable"',
-        'tagtypes "enable" f:0*',
+        'tagtypes "enable" f:0.Enable.0*',
     ],
     "StickerGet<'_>": [
         'sticker "get" "song" f:uri f:name',
@@ -309,6 +309,17 @@ def shape_rule(rep, prog, cfg):
         got = sorted(" ".join(x) for x in sh)
         exp = EXPECT.get(name)
         where = b.loc(b.span)
+        if exp is not None and (problems or sorted(exp) != got):
+            # what is sent may be put together by a private helper (`self.0.sign_and_time()`): spliced in (A12), the paths are then
+            # those of the command and the helper together
+            from ..inline import inlined
+            b2 = inlined(prog, b, lambda cb: cb.crate == b.crate and cb.kind in ("Fn", "AssocFn") and not cb.raw.get("pub") and not cb.raw.get("exported")
+                         and not cb.raw.get("derived") and not cb.raw.get("coroutine"), depth=2)
+            if b2.raw.get("inlined"):
+                sh2, problems2 = shapes_of(prog, b2)
+                got2 = sorted(" ".join(x) for x in sh2)
+                if not problems2 and got2 == sorted(exp):
+                    sh, problems, got = sh2, problems2, got2
         if problems:
             rep.fail(rule, "%s/%s analysable" % (cfg, name), where, "command() of %s is not analysable: %s (failing closed)" % (name, problems[:2]))
             continue
